@@ -118,7 +118,9 @@ func atoi(s string) int {
 func tm(sec int) time.Time { return time.Unix(int64(sec), 0) }
 
 var handleOps = map[string]bool{"HRead": true, "HReadAt": true, "HWrite": true, "HWriteAt": true, "HWriteString": true,
-	"HSeek": true, "HTruncate": true, "HClose": true, "HReaddir": true, "HReaddirnames": true, "HStat": true, "HName": true, "HSync": true}
+	"HSeek": true, "HTruncate": true, "HClose": true, "HReaddir": true, "HReaddirnames": true, "HStat": true, "HName": true, "HSync": true,
+	// HReadDir: always the io/fs spelling ReadDir (fs.ReadDirFile) of the handle; the model answers it like HReaddir
+	"HReadDir": true}
 
 // Exec runs one item line and returns the canonical result.
 func (in *Interp) Exec(line string) (out string) {
@@ -273,6 +275,25 @@ func execHandle(f afero.File, name string, a []string) string {
 		}
 		l, err := f.Readdir(atoi(a[0]))
 		return listRes("infos", fisS(l), len(l), err)
+	case "HReadDir":
+		// the io/fs spelling on every call (HReaddir uses it for a third of them): same entries, same
+		// error as Readdir; handles without ReadDir fall back to Readdir
+		rd, ok := f.(iofs.ReadDirFile)
+		if !ok {
+			l, err := f.Readdir(atoi(a[0]))
+			return listRes("infos", fisS(l), len(l), err)
+		}
+		des, err := rd.ReadDir(atoi(a[0]))
+		parts := make([]string, len(des))
+		for i, de := range des {
+			d := "f"
+			if de.IsDir() {
+				d = "d"
+			}
+			parts[i] = hx([]byte(de.Name())) + "|" + d
+		}
+		sort.Strings(parts)
+		return listRes("infos", strings.Join(parts, ","), len(des), err)
 	case "HReaddirnames":
 		l, err := f.Readdirnames(atoi(a[0]))
 		return listRes("names", namesS(l), len(l), err)
